@@ -427,7 +427,12 @@ def minimize_lbfgsb(
                 ),
             )
         else:
-            return checkpoint
+            # the state is the checkpoint's, the termination report is this run's
+            res = copy.copy(checkpoint)
+            res.status = istate.warnflag
+            res.message = istate.task_str
+            res.success = istate.is_success
+            return res
 
     # Compute the first gradient if no checkpoint provided
     if checkpoint is None:
